@@ -35,7 +35,7 @@
 (***************************************************************************)
 EXTENDS Naturals, Integers, Sequences, FiniteSets, FiniteSetsExt, TLC, TLCExt
 
-CONSTANTS MaxConn, MaxTask, MaxMsg, MaxEnv, H, ConnSubs, MsgSubs, QCap,
+CONSTANTS MaxConn, MaxTask, MaxMsg, MaxEnv, H, ConnSubs, MsgSubs, SubSends, QCap,
           F_ENQ, F_DRAIN, F_ONE, F_CLOSE, F_CAP, Record, Kinds, Policies
 
 C == INSTANCE SocketContract WITH QMAX <- QCap
@@ -177,7 +177,18 @@ Seg(s, t) ==
              IN {R(Stop(s1), <<Ev(s, [e |-> "attempt", t |-> 0, c |-> c - 1])>>)}
   [] pc = "K3" ->          \* open_connection returned: arg = connection
         LET s1 == [s EXCEPT !.reader = me.arg, !.writer = me.arg, !.isConn = TRUE]
-        IN IF ConnSubs THEN { R(r, Notify(s, TRUE)) : r \in Hops(s1, t, "K4") }
+            \* SubSends: a connection subscriber submits a request whenever the link comes up (as the API
+            \* layer does): its coroutine is a task of its own (as_completed wraps it), RETRY_CONNECTED policy
+            sub == ConnSubs /\ SubSends /\ s.nmsg < MaxMsg
+            m   == s.nmsg + 1
+            s2  == IF sub
+                   THEN LET a  == [m |-> m, kind |-> "ok", retries |-> 0, life |-> 2]
+                            x  == Spawn(s1, "send", "S0", a, 0)
+                        IN [x EXCEPT !.nmsg = m, !.calls = @ + 1, !.task[NT(x)].cid = s.calls + 1]
+                   ELSE s1
+            o   == IF sub THEN <<Ev(s, [e |-> "callsend", t |-> 0, id |-> s.calls + 1, desc |-> m, retries |-> 0,
+                                       life |-> 1000, enc |-> "ok"])>> ELSE <<>>
+        IN IF ConnSubs THEN { R(r, Notify(s, TRUE) \o o) : r \in Hops(s2, t, "K4") }
            ELSE {R(Cont(SetPc(s1, t, "K4"), t), <<>>)}
   [] pc = "K4" -> {R(Cont(Push(s, t, "K5", "R0"), t), <<>>)}
   [] pc = "K4x" ->         \* original code: an encoder exception escaped the drain and _connect
